@@ -110,21 +110,21 @@ PROPS = {
         rule="per message: well-formed messages (spec renderer vs real encoder), canonical + shuffled/duplicated/unknown/boundary-length/truncated inputs (spec table-driven decoder vs real decoder), plus the table-driven model correspondence stream; non-trivial = accepted",
     ),
     "C06": dict(
-        level="proof", modules=["NasVerif.Props.C06"], parts=["Crypto", "Globals"], extra=c08_extra,
+        level="proof", modules=["NasVerif.Props.C06", "NasVerif.Props.CryptoLeafTie"], parts=["Crypto", "Globals"], extra=c08_extra,
         streams=[("secspec", 1000, 6000, "spec"), ("security", 2000, 12000)], oracle=None,
         trusted_base=TB_COMMON + ["Spec/Snow3G.lean, Spec/ZUC.lean, Spec/EEA.lean, Spec/AES.lean: transcriptions of the ETSI/SAGE, ZUC v1.6, EEA3/EIA3 v1.8, FIPS-197, SP 800-38A/B, TS 33.401 Annex B specifications, validated on published vectors",
-                                   "hand-written Model/Snow3g.lean, Model/Zuc.lean, Model/Security.lean mirror the Go functions; tied by the correspondence run (keystreams, leaf functions through verif hooks, NEA/NIA at every bit length)",
+                                   "hand-written Model/Snow3g.lean, Model/Zuc.lean, Model/Security.lean mirror the Go functions; the leaf functions (snow3g mulx/mulxPow/s1/s2/mulAlpha/divAlpha, zuc rot/l1/l2/makeU32, security mulx/mulxPow) are in addition regenerated from the source on every run (tools/extract/leaf.go -> Gen/CryptoLeaf.lean) and proved equal to the model's (Props/CryptoLeafTie.lean); loops and state-passing methods are tied by the correspondence run (keystreams, leaf functions through verif hooks, NEA/NIA at every bit length)",
                                    "crypto/aes, cipher.NewCTR, github.com/aead/cmac: modelled by Spec.AES (compared on every run)"],
         rule="direct Go-vs-specification stream: every bit length 0..200 (thorough 0..700) x 3 algorithms, all 32 bearers x 2 directions, random keys/counts (incl. 0xffffffff), random longer payloads; plus model correspondence (keystreams, leaf functions, per-algorithm functions); non-trivial = distinct op executed",
     ),
     "C07": dict(
-        level="proof", modules=["NasVerif.Props.C07"], parts=["Crypto", "Globals"], extra=c08_extra,
+        level="proof", modules=["NasVerif.Props.C07", "NasVerif.Props.CryptoLeafTie"], parts=["Crypto", "Globals"], extra=c08_extra,
         streams=[("secspec", 1000, 6000, "spec"), ("security", 2000, 12000)], oracle=None,
         trusted_base=TB_COMMON + ["same specification files and models as C06"],
         rule="as C06; MAC messages canonically packed (pad bits zero), every bit length incl. non-multiples of 8/32/64",
     ),
     "C08": dict(
-        level="proof", modules=["NasVerif.Props.C08"], parts=["Crypto", "Globals"], extra=c08_extra,
+        level="proof", modules=["NasVerif.Props.C08", "NasVerif.Props.CryptoLeafTie"], parts=["Crypto", "Globals"], extra=c08_extra,
         streams=[("secapi", 2000, 12000), ("security", 1000, 4000)], oracle="C08",
         trusted_base=TB_COMMON + ["Model/Security.lean NASEncrypt/NASMacCalculate mirror the Go guard sequence and switch; tied by the correspondence run over the (algorithm, bearer, direction, payload) grid"],
         rule="grid of algorithm ids (all 256) x bearers x directions x payloads (nil, empty, 1 octet, random) + every payload length 0..70 per algorithm + random lengths to 1500; oracle evaluates involution, prefix stability (every prefix), plaintext independence, validation, NULL algorithms, MAC length on the real code",
